@@ -123,6 +123,11 @@ Theorem C15_poser_ok_iff : forall ss names, poser_ok ss names = true <->
   (forall s, In s ss -> forall c st, In (c,st) s -> st = Extracted).
 Proof. exact poser_ok_iff. Qed.
 
+(* one name per algorithm = as many list ENTRIES as algorithms: only the length of the name list matters, so a list with
+   repeats is judged by its number of entries (["one";"one"] fits two algorithms, ["one";"one";"two"] does not) *)
+Theorem C15_poser_counts_name_entries : forall ss n1 n2, length n1 = length n2 -> poser_check ss n1 = poser_check ss n2.
+Proof. exact poser_check_names_length. Qed.
+
 Theorem C15_state_of_extracted : forall x,
   state_of x = Extracted <-> (exists r, a_result x = Some r) /\ (exists m, a_mpe x = Some m).
 Proof. exact state_of_extracted. Qed.
@@ -150,6 +155,7 @@ Print Assumptions C15_run_all_is_fold_reachable.
 Print Assumptions C15_saveload_id.
 Print Assumptions C15_saveload_anywhere.
 Print Assumptions C15_poser_ok_iff.
+Print Assumptions C15_poser_counts_name_entries.
 Print Assumptions C15_state_of_extracted.
 
 (* non-vacuity.  Classes 1, 2; parameters 7, 8; data 10 (fs 50), replaced by data 11 (fs 25) by a preprocessing call.
@@ -176,5 +182,8 @@ Example C15_example_poser :
   poser_check [ok; [(2,Extracted);(1,Extracted)]] [0;1] = Some 3 /\
   poser_check [ok; ok; ok] [0] = Some 4 /\
   poser_check [ok; [(1,Extracted);(2,Ran)]] [0;1] = Some 5 /\
-  poser_check [ok; [(1,NotRun);(2,Extracted)]] [0;1] = Some 5.
+  poser_check [ok; [(1,NotRun);(2,Extracted)]] [0;1] = Some 5 /\
+  poser_check [ok; ok] [7;7] = None /\          (* right number of entries, a repeated name *)
+  poser_check [ok; ok] [7;7;8] = Some 4 /\      (* two distinct names but three entries *)
+  poser_check [ok; ok] [7;8;7;8] = Some 4.
 Proof. vm_compute. repeat split; reflexivity. Qed.
